@@ -98,6 +98,37 @@ def lowerAscii (s : Str) : Str := s.map (fun c => if 'A' ≤ c && c ≤ 'Z' then
 /-- `int(s)` for a string of ASCII digits -/
 def natOfDigits (s : Str) : Nat := s.foldl (fun n c => n * 10 + (c.toNat - 48)) 0
 
+/-- start of the closed range of a range tree that contains `n` -/
+def rangeLo : NatTree Nat → Nat → Option Nat
+  | .leaf, _ => none
+  | .node l lo hi r, n => if n < lo then rangeLo l n else if hi < n then rangeLo r n else some lo
+
+/-- decimal value of a Unicode decimal digit (what `int()` uses for each character): the decimal digits
+(`str.isdecimal`, = `\d`) come in runs of ten consecutive code points starting at a zero, so the value is the
+offset in the maximal run modulo 10 (checked against CPython for every code point when the tables are made) -/
+def digitValue (c : Char) : Option Nat :=
+  (rangeLo Generated.digitTree c.toNat).map (fun lo => (c.toNat - lo) % 10)
+
+/-- `int(s)` for a string of (Unicode) decimal digits; `none` = `ValueError` (empty string or a non-digit).
+Signs, underscores and surrounding white space, which `int()` also accepts, do not occur at the call sites. -/
+def intOfStr (s : Str) : Option Nat :=
+  if s.isEmpty then none
+  else s.foldl (fun acc c => match acc, digitValue c with
+    | some n, some d => some (n * 10 + d)
+    | _, _ => none) (some 0)
+
+/-- `pattern.search(s, pos)`: CPython clamps `pos` to `len(s)` -/
+def search (r : Rx) (x : RxCtx) (pos : Nat) : Option RxMatch := r.search x (min pos x.n)
+
+/-- `pattern.match(s, pos)`: CPython clamps `pos` to `len(s)` -/
+def matchAt (r : Rx) (x : RxCtx) (pos : Nat) : Option RxMatch := r.matchAt x (min pos x.n)
+
+/-- `pattern.match(s, pos, endpos)`: both clamped to `len(s)`; no match when `pos > endpos` -/
+def matchIn (r : Rx) (x : RxCtx) (pos endpos : Nat) : Option RxMatch :=
+  let e := min endpos x.n
+  let p := min pos x.n
+  if p > e then none else r.matchAt { x with n := e } p
+
 /-- `str(n)` -/
 def strOfNat (n : Nat) : Str := (toString n).toList
 
@@ -127,6 +158,27 @@ def reSub (r : Rx) (repl : Array Char → RxMatch → Str) (s : Str) : Str :=
           if mt.start < x.n then go fuel (mt.start + 1) (mt.start + 1) (acc' ++ [x.s.getD mt.start ' '])
           else acc'
         else go fuel mt.stop mt.stop acc'
+  go (s.length + 2) 0 0 []
+
+/-- `pattern.sub(repl, s)` with a function replacement that may raise (`repl` returns `Except ε`): same scan as
+`reSub`, the first exception raised by a replacement call propagates (CPython calls `repl` in match order). -/
+def reSubM {ε : Type} (r : Rx) (repl : Array Char → RxMatch → Except ε Str) (s : Str) : Except ε Str :=
+  let x := ctxOf s
+  let rec go : Nat → Nat → Nat → Str → Except ε Str
+    | 0, _, copyPos, acc => .ok (acc ++ slice x.s copyPos x.n)
+    | fuel + 1, pos, copyPos, acc =>
+      if pos > x.n then .ok (acc ++ slice x.s copyPos x.n) else
+      match r.search x pos with
+      | none => .ok (acc ++ slice x.s copyPos x.n)
+      | some mt =>
+        match repl x.s mt with
+        | .error e => .error e
+        | .ok rep =>
+          let acc' := acc ++ slice x.s copyPos mt.start ++ rep
+          if mt.stop == mt.start then
+            if mt.start < x.n then go fuel (mt.start + 1) (mt.start + 1) (acc' ++ [x.s.getD mt.start ' '])
+            else .ok acc'
+          else go fuel mt.stop mt.stop acc'
   go (s.length + 2) 0 0 []
 
 /-- `pattern.split(s)` for a pattern without capture groups that never matches empty -/
